@@ -4,19 +4,21 @@
  "file": "map.c", "function": "mapput", "also_functions": ["mapget", "mapinit", "keyindex", "keyequal", "hash", "mapkey"],
  "properties": {"C16": "contract", "C19": "safety"},
  "mode": "harness",
+ "replace_calls": {"hash": "uf_hash"},
  "kind": "bounded",
- "bound": "initial capacity in {4,8}; 4 put/overwrite operations, each followed by a get of an arbitrary key; keys of 0..2 arbitrary bytes hashed by the real hash()",
+ "bound": "initial capacity in {4,8}; 4 put/overwrite operations, each followed by a get of an arbitrary key; keys of 0..2 arbitrary bytes; hash() replaced by an arbitrary (uninterpreted) function of the key bytes",
  "cflags": ["-DNOPS=4"],
  "variants": {"cap4": ["-DV_CAP=4"], "cap8": ["-DV_CAP=8"]},
  "canary_variant": "cap4",
- "unwindset": ["hash.0:3", "memcmp.0:3", "keyindex.0:9", "mapinit.0:9", "mapput.0:9", "mapput.1:5", "model_get.0:5", "model_distinct.0:5", "model_distinct.1:5"],
+ "unwindset": ["memcmp.0:3", "keyindex.0:9", "mapinit.0:9", "mapput.0:9", "mapput.1:5", "model_get.0:5", "model_distinct.0:5", "model_distinct.1:5"],
  "timeout": 300, "mem_gb": 8,
  "tiers": {"thorough": {"cflags": ["-DNOPS=6"], "timeout": 3000,
-            "unwindset": ["hash.0:3", "memcmp.0:3", "keyindex.0:17", "mapinit.0:9", "mapput.0:17", "mapput.1:9", "model_get.0:7", "model_distinct.0:7", "model_distinct.1:7"],
-            "bound": "initial capacity in {4,8}; 6 put/overwrite operations (table grows up to 16 slots), each followed by a get of an arbitrary key; keys of 0..2 arbitrary bytes hashed by the real hash()"}},
+            "unwindset": ["memcmp.0:3", "keyindex.0:17", "mapinit.0:9", "mapput.0:17", "mapput.1:9", "model_get.0:7", "model_distinct.0:7", "model_distinct.1:7"],
+            "bound": "initial capacity in {4,8}; 6 put/overwrite operations (table grows up to 16 slots), each followed by a get of an arbitrary key; keys of 0..2 arbitrary bytes; hash() replaced by an arbitrary (uninterpreted) function of the key bytes"}},
  "expects": ["assertion_verif", "assertion_repo", "pointer_dereference"],
  "assumes": ["xreallocarray does not fail (stubs/base.c)",
              "initial capacity >= 4 (call sites use 8, 32, 64): with capacity 1 or 2 the table can become full (growth happens only when len > cap/2 BEFORE an insertion) and a lookup of an absent key then probes forever",
+             "hash() is a deterministic function of (len, the len key bytes): it is replaced by an uninterpreted function of them, which covers the real FNV-1a loop and every other hash",
              "values are opaque non-null pointers; key bytes stay alive and unmodified while the key is in the table (all clients pass interned strings / literal data)"]
 }
 */
@@ -39,6 +41,42 @@
 #endif
 
 static struct map t_map;
+
+/*
+ * hash() is replaced by an UNINTERPRETED function of (len, bytes): a fresh arbitrary value per call, except that  Byte-equal keys get the
+ * the same hash as before; everything else is left to the solver, so the dictionary property is shown for EVERY deterministic hash
+ * function - the real FNV-1a loop being one of them (its two 64-bit multiplications per key made 2 operations
+ * undecidable in 170 s).  What is used about the real hash(): it is a function of the len bytes only (MAP.hash: it
+ * assigns nothing and reads exactly those bytes).
+ */
+#define UFMAX (2 * NOPS)
+static struct { size_t len; unsigned char b[2]; unsigned long val; } g_uf[UFMAX];
+static unsigned g_ufn;
+unsigned long nondet_hashval(void);
+unsigned long
+uf_hash(const void *ptr, size_t len)
+{
+	const unsigned char *p = ptr;
+	unsigned char b0, b1;
+	unsigned long v = nondet_hashval();
+	unsigned i;
+
+	__CPROVER_assert(len <= 2, "keys of at most 2 bytes");
+	__CPROVER_assert(g_ufn < UFMAX, "hash is called once per operation");
+	b0 = len >= 1 ? p[0] : 0;
+	b1 = len >= 2 ? p[1] : 0;
+	/* same bytes as an earlier call => same value (Ackermann expansion of the uninterpreted function) */
+	for (i = 0; i < g_ufn; ++i) {
+		if (g_uf[i].len == len && g_uf[i].b[0] == b0 && g_uf[i].b[1] == b1) {
+			v = g_uf[i].val;
+			break;
+		}
+	}
+	g_uf[g_ufn].len = len; g_uf[g_ufn].b[0] = b0; g_uf[g_ufn].b[1] = b1; g_uf[g_ufn].val = v;
+	++g_ufn;
+	return v;
+}
+
 /* reference model */
 static unsigned char m_kb[NOPS][2];
 static size_t m_kl[NOPS];
@@ -136,10 +174,16 @@ harness(void)
 	__CPROVER_assert(t_map.len == 0 && t_map.cap == V_CAP, "mapinit");
 	STEP(0);
 	STEP(1);
+#if NOPS >= 3
 	STEP(2);
+#endif
+#if NOPS >= 4
 	STEP(3);
-#if NOPS >= 6
+#endif
+#if NOPS >= 5
 	STEP(4);
+#endif
+#if NOPS >= 6
 	STEP(5);
 #endif
 #ifdef VERIF_CANARY
